@@ -11,6 +11,7 @@ from __future__ import annotations
 
 import dataclasses
 import datetime
+import ipaddress
 import itertools
 import typing
 
@@ -52,8 +53,16 @@ ARCH = [
     # nullable through forms other than Optional[X] (finding F41: omit_none ignored them)
     ("union3_none", typing.Union[int, str, None], dataclasses.MISSING, True, True, "s", None),
     ("lit_none", typing.Literal[1, None], 1, True, True, None, None),
+    # a tuple default whose items are not literals (omit_default compares with the default: finding F69)
+    ("tup_ip_def", typing.Tuple[ipaddress.IPv4Address, ...], (ipaddress.IPv4Address("10.0.0.1"),), False, False, (), lambda v: [str(x) for x in v]),
+    ("tup_inf_def", typing.Tuple[float, ...], (float("inf"), 1.0), False, False, (2.0,), lambda v: list(v)),
 ]
 OPTS = ("omit_none", "omit_default", "serialize_by_alias")
+
+
+def _is_fac(dv):
+    """("factory", value): the default comes from a default_factory (a plain tuple is an ordinary default value)"""
+    return isinstance(dv, tuple) and len(dv) == 2 and dv[0] == "factory"
 
 
 def draw_case(rng, template=None):
@@ -122,7 +131,7 @@ def build(case, idx):
         if md:
             kw["metadata"] = field_options(**md)
         if a[2] is not dataclasses.MISSING:
-            if isinstance(a[2], tuple):
+            if _is_fac(a[2]):
                 val = a[2][1]
                 kw["default_factory"] = (lambda v: (lambda: list(v)))(val)
             else:
@@ -175,7 +184,7 @@ def instances(case, rng):
             dv = a[2]
             has_def = dv is not dataclasses.MISSING
             if mode == "default" and has_def:
-                vals.append(list(dv[1]) if isinstance(dv, tuple) else dv)
+                vals.append(list(dv[1]) if _is_fac(dv) else dv)
             elif mode == "none" and a[3]:
                 vals.append(None)
             elif mode == "mixed":
@@ -183,7 +192,7 @@ def instances(case, rng):
                 if c < 0.35 and a[3]:
                     vals.append(None)
                 elif c < 0.7 and has_def:
-                    vals.append(list(dv[1]) if isinstance(dv, tuple) else dv)
+                    vals.append(list(dv[1]) if _is_fac(dv) else dv)
                 else:
                     vals.append(a[5])
             else:
@@ -210,7 +219,7 @@ def model_line(case, vals):
         a = ARCH[f["arch"]]
         dv = a[2]
         has_def = dv is not dataclasses.MISSING
-        dval = (list(dv[1]) if isinstance(dv, tuple) else dv) if has_def else None
+        dval = (list(dv[1]) if _is_fac(dv) else dv) if has_def else None
         packed = raw if (a[6] is None or raw is None) else a[6](raw)
         craw = S.canon(raw, None)
         fields.append(
